@@ -48,9 +48,9 @@ import (
 )
 
 const (
-	c17PoolN    = 4                        // keys in the scenario pool
+	c17PoolN    = 4                          // keys in the scenario pool
 	c17BigBase  = uint64(430000000000) << 18 // a realistic TSO (physical ms << 18)
-	c17FillerTS = 1000                      // commit ts (relative) of the pre-filled keys: above every scenario start ts
+	c17FillerTS = 1000                       // commit ts (relative) of the pre-filled keys: above every scenario start ts
 )
 
 type c17Txn struct {
@@ -80,8 +80,8 @@ func (c *c17Cfg) String() string {
 // ------------------------------------------------------------------ key pools
 
 type c17Pool struct {
-	keys    [][]byte   // pool keys, ascending
-	fillers [][]byte   // 5 per slot
+	keys    [][]byte // pool keys, ascending
+	fillers [][]byte // 5 per slot
 }
 
 var (
@@ -167,8 +167,8 @@ type c17Exec struct {
 	wake    []*Lock
 	wakeIdx int
 
-	holding  []bool            // spec: non-stale return .. UnLock call
-	released [c17PoolN]uint64  // spec: max commit ts (absolute) released so far on key, by non-stale holders
+	holding  []bool           // spec: non-stale return .. UnLock call
+	released [c17PoolN]uint64 // spec: max commit ts (absolute) released so far on key, by non-stale holders
 	relBy    [c17PoolN]int8
 
 	events   []c17Event
@@ -570,8 +570,8 @@ func (e *c17Exec) outcome(h uint64) uint64 {
 
 type c17Stats struct {
 	execs, judged, blocked, stale, nontrivial, truncated, maxDepth int64
-	wakeRequeued                                                 int64
-	distinct                                                     map[uint64]struct{}
+	wakeRequeued                                                   int64
+	distinct                                                       map[uint64]struct{}
 }
 
 type c17Chooser interface {
